@@ -26,6 +26,7 @@ import RV.Drv.ClosedLoop
 import RV.Drv.Wakeup
 import RV.Drv.TrafficX
 import RV.Drv.Finder
+import RV.Drv.DepCtl
 import RV.Drv.Extra1
 import RV.Drv.Extra2
 namespace RV.Drv
@@ -58,6 +59,7 @@ def lookup : String → Option Handler
   | "wakeup" => some Wakeup.handle
   | "trafficx" => some TrafficX.handle
   | "finder" => some Finder.handle
+  | "depctl" => some DepCtl.handle
   | "extra1" => some Extra1.handle
   | "extra2" => some Extra2.handle
   | _ => none
